@@ -848,12 +848,13 @@ def witnesses(ctx):
         db = TestDatabase(); db.bind(dialect, ':memory:')
         exec(HEADER + src, {'db': db})
         ctx.case(['witness', 'len', kind], kind='witness')
+        decls = extract_decls(db)
         try:
             Database.generate_mapping(db, create_tables=False, check_tables=False)
         except Exception as e:
             ctx.note('length witness %s is now rejected by generate_mapping (%s)' % (kind, exc_cls(e))); continue
         real = real_schema_json(db.schema)
-        decls = extract_decls(db); finish_decls(decls)
+        finish_decls(decls)
         before = len(ctx.violations) + len(ctx.known_hits)
         check_schema_property(ctx, dialect, real, explicit_names(decls), {'source': src}, 'generate_mapping')
         if len(ctx.violations) + len(ctx.known_hits) == before:
